@@ -194,6 +194,16 @@ pub fn handle_segment(
     seg: ErasedSegment,
     context: &RuleContext,
 ) -> LintResult {
+    #[cfg(sqruff_verif)]
+    if verif_hook::enter() {
+        return verif_hook::record(
+            description_elem,
+            extended_capitalisation_policy,
+            cap_policy_name,
+            seg,
+            context,
+        );
+    }
     if seg.raw().is_empty() || seg.is_templated() {
         return LintResult::new(None, Vec::new(), None, None);
     }
@@ -312,5 +322,100 @@ pub fn handle_segment(
             format!("{description_elem} must be {consistency}{policy}").into(),
             None,
         )
+    }
+}
+
+/// Verification hook (cfg(sqruff_verif) only): records every call of `handle_segment`
+/// (arguments, memory before and after, result) into a thread-local log.
+#[cfg(sqruff_verif)]
+pub mod verif_hook {
+    use std::cell::{Cell, RefCell};
+
+    use super::*;
+
+    #[derive(Debug, Clone)]
+    pub struct CapsCall {
+        pub raw: String,
+        pub templated: bool,
+        pub policy: String,
+        pub policy_name: String,
+        pub refuted_before: Vec<&'static str>,
+        pub latest_before: Option<String>,
+        pub refuted_after: Vec<&'static str>,
+        pub latest_after: Option<String>,
+        /// `None`: no violation; `Some(new_raw)`: violation with a fix replacing the token by `new_raw`
+        pub fixed: Option<String>,
+        pub description: Option<String>,
+    }
+
+    thread_local! {
+        pub static CAPS_LOG: RefCell<Option<Vec<CapsCall>>> = const { RefCell::new(None) };
+        static INSIDE: Cell<bool> = const { Cell::new(false) };
+    }
+
+    /// true when recording is on and this is the outer call
+    pub fn enter() -> bool {
+        !INSIDE.with(|i| i.get()) && CAPS_LOG.with(|l| l.borrow().is_some())
+    }
+
+    fn memory(context: &RuleContext) -> (Vec<&'static str>, Option<String>) {
+        let mut refuted: Vec<&'static str> = context
+            .try_get::<RefutedCases>()
+            .unwrap_or_default()
+            .0
+            .into_iter()
+            .collect();
+        refuted.sort();
+        (refuted, context.try_get::<LatestPossibleCase>().map(|l| l.0))
+    }
+
+    pub fn record(
+        description_elem: &str,
+        extended_capitalisation_policy: &str,
+        cap_policy_name: &str,
+        seg: ErasedSegment,
+        context: &RuleContext,
+    ) -> LintResult {
+        let (refuted_before, latest_before) = memory(context);
+        let raw = seg.raw().to_string();
+        let templated = seg.is_templated();
+        INSIDE.with(|i| i.set(true));
+        let res = std::panic::catch_unwind(std::panic::AssertUnwindSafe(|| {
+            handle_segment(
+                description_elem,
+                extended_capitalisation_policy,
+                cap_policy_name,
+                seg,
+                context,
+            )
+        }));
+        INSIDE.with(|i| i.set(false));
+        let res = match res {
+            Ok(res) => res,
+            Err(e) => std::panic::resume_unwind(e),
+        };
+        let (refuted_after, latest_after) = memory(context);
+        let fixed = res
+            .fixes
+            .first()
+            .and_then(|f| f.edit.first())
+            .map(|e| e.raw().to_string());
+        CAPS_LOG.with(|l| {
+            if let Some(log) = l.borrow_mut().as_mut() {
+                log.push(CapsCall {
+                    raw,
+                    templated,
+                    policy: extended_capitalisation_policy.to_string(),
+                    policy_name: cap_policy_name.to_string(),
+                    refuted_before,
+                    latest_before,
+                    refuted_after,
+                    latest_after,
+                    fixed,
+                    description: res.anchor.as_ref().map(|_| format!("{res:?}")),
+                });
+            }
+        });
+        res
     }
 }
